@@ -9,6 +9,7 @@
 package main
 
 import (
+	"encoding/json"
 	"flag"
 	"fmt"
 	"os"
@@ -67,6 +68,20 @@ func main() {
 		n := fs.Int("n", 200, "")
 		fs.Parse(args)
 		os.Exit(core.Hashes(*prop, *tier, *n, os.Stdout))
+	case "script":
+		// print the script of one run index (development aid)
+		fs := flag.NewFlagSet("script", flag.ExitOnError)
+		prop := fs.String("property", "", "")
+		tier := fs.String("tier", "quick", "")
+		run := fs.Int("run", 0, "")
+		fs.Parse(args)
+		p, err := core.Lookup(*prop)
+		if err != nil {
+			fmt.Fprintln(os.Stderr, err)
+			os.Exit(2)
+		}
+		b, _ := json.Marshal(core.ScriptFor(p, *tier, core.BaseSeed(*tier), *run))
+		fmt.Println(string(b))
 	case "worker":
 		fs := flag.NewFlagSet("worker", flag.ExitOnError)
 		var a core.WorkerArgs
